@@ -207,6 +207,59 @@ func runC13(c *Ctx, r *Report) {
 	c13Slots(c, r)
 	// ---- R3 ----------------------------------------------------------------------------------
 	c13Fresh(c, r)
+	byteOrderDiscipline(c, r, "C13-R3-byte-order-use")
+}
+
+// byteOrderDiscipline: every multi-byte read in the functions that parse a data record uses the byte
+// order stored in that record's definition (dm.arch); the package-level le/be and any decoder-level
+// flag are not a property of the definition.
+func byteOrderDiscipline(c *Ctx, r *Report, rule string) {
+	root := c.ssaFn(c.fn(c.fit, "decoder.parseDataMessage"))
+	if root == nil {
+		r.fail(rule, "parseDataMessage", "", "not found")
+		return
+	}
+	ri := c.reach([]*ssa.Function{root})
+	n := 0
+	for _, fn := range ri.module() {
+		if fnPkgPath(fn) != modPath {
+			continue
+		}
+		idx := 0
+		for _, ci := range allCalls(fn) {
+			cc := ci.Common()
+			name := ""
+			var recv ssa.Value
+			if cc.IsInvoke() && cc.Value.Type().String() == "encoding/binary.ByteOrder" {
+				name, recv = cc.Method.Name(), cc.Value
+			} else if f := cc.StaticCallee(); f != nil && f.Pkg != nil && f.Pkg.Pkg.Path() == "encoding/binary" && f.Signature.Recv() != nil {
+				name = f.Name()
+				if len(cc.Args) > 0 {
+					recv = cc.Args[0]
+				}
+			}
+			if !strings.HasPrefix(name, "Uint") && !strings.HasPrefix(name, "PutUint") {
+				continue
+			}
+			n++
+			key := fmt.Sprintf("%s/%s#%d", fn.Name(), name, idx)
+			idx++
+			p := pathOf(recv)
+			okR := p == "*dm.arch"
+			r.check(okR, rule, key, c.pos(ci.Pos()), "byte order taken from the record's own definition (dm.arch)", "multi-byte read in "+fn.Name()+" uses byte order "+p+" instead of the definition's (dm.arch): redefining another local type, or a big-endian definition, changes how this record decodes")
+		}
+	}
+	r.need("multi-byte reads in the record-parsing functions", n, 15)
+	// dm must be the definition loaded for this record: parseDataFields etc. receive dm from parseDataMessage's slot load
+	okFlow := false
+	for _, ci := range allCalls(root) {
+		if f := ci.Common().StaticCallee(); f != nil && f.Name() == "parseDataFields" && len(ci.Common().Args) > 1 {
+			if strings.Contains(pathOf(ci.Common().Args[1]), ".defmsgs[") {
+				okFlow = true
+			}
+		}
+	}
+	r.check(okFlow, rule, "parseDataMessage/dm-flow", c.pos(root.Pos()), "the definition handed to the field parsers is the one loaded from the record's slot", "parseDataFields is not called with the definition loaded from the record's local-type slot")
 }
 
 func c13Extraction(c *Ctx, r *Report) {
